@@ -3,12 +3,12 @@ CONSTANTS
   MaxH = 7
   Page = 3
   TSet = {0}
-  RSet = {}
-  RUB = FALSE
-  MTB = 0
+  RSet = {3, 4, 5, 6}
+  RUB = TRUE
+  MTB = 1
   GCP = 1
-  MaxCrash = 2
-  MaxReset = 1
-  Dev = {"ResetKeepsPages"}
+  MaxCrash = 1
+  MaxReset = 0
+  Dev = {"FixV1"}
 INVARIANTS AbsAnswers AbsTip AbsHeights AbsReset CanRestart NoDead MemCanonical RestartTransparent DiskPages KeepsList
 CHECK_DEADLOCK FALSE
